@@ -52,7 +52,7 @@ Layout(side, fs, i, off, base) ==
 
 Scenario(side, fs, cut, ext, utf8, max) ==
     [ev |-> "setup", side |-> side, ext |-> ext, extended |-> ext, utf8 |-> utf8, max |-> max,
-     coded |-> FALSE, cbs |-> TRUE, skip |-> FALSE, frames |-> Layout(side, fs, 1, 0, 0), cut |-> cut, cutKind |-> "eof", cbRead |-> 0, contRead |-> 0]
+     coded |-> FALSE, cbs |-> TRUE, skip |-> FALSE, frames |-> Layout(side, fs, 1, 0, 0), cut |-> cut, cutKind |-> "eof", cbRead |-> 0, contRead |-> 0, discardInvalid |-> FALSE]
 
 VARIABLES sc, m,                     \* scenario, monitor
           pos,                       \* bytes pulled from the source
